@@ -49,7 +49,7 @@ theorem C03_kwargs_are_stored_results (P : Program) (s : St) (n : Node) (kw : Kw
 recurrent subgraph) -/
 theorem C03_input_node_gets_callers_kwargs (P : Program) (s : St) (h : s.additional P.g.input = none) :
     nodeKwargs P s P.g.input = .ok P.inputKw := by
-  simp [nodeKwargs, h]
+  simp [nodeKwargs, kwBase, h]
 
 /-! Non-vacuity: a two-node chain whose source has a stored result is ready; without it, it is not. -/
 example :
